@@ -47,8 +47,8 @@ type Report struct {
 	Assumptions []string
 	Functions   map[string]bool
 	Extra       map[string]interface{}
-	idxLines    map[string]bool              // "file:line" of every IDX obligation
-	idxFuncs    map[string][3]interface{}    // function -> file, first line, last line (functions whose index operations were enumerated)
+	idxLines    map[string]bool           // "file:line" of every IDX obligation
+	idxFuncs    map[string][3]interface{} // function -> file, first line, last line (functions whose index operations were enumerated)
 	floors      []string
 	evDir       string
 }
